@@ -11,6 +11,9 @@ def files : List (String × List Directive) := [
   ("/ipscachedur.html", [.allowIps [1], .cache .maxAge]),
   ("/ipscacheqm.html", [.allowIps [1], .cache .queryMatters]),
   ("/hidecache.html", [.hide, .cache .maxAge]),
+  -- a directive nobody mounted before the guard is passed over
+  ("/unkips.html", [.allowIps [1]]),
+  ("/unkhide.html", [.hide]),
   ("/ips.html", [.allowIps [1]]),
   ("/ipscache.html", [.allowIps [1], .cache .full]),
   ("/cacheips.html", [.cache .full, .allowIps [1]]),
